@@ -354,6 +354,16 @@ def case(world):
         if is_inner and not vs and len(S.trials) != p + 1:
             vs.append(V(ID, "aborted-trial", "deadline inside the Newton loop of trial %d but the trial is not logged as aborted" % p, sub, ctx))
         viol += vs
+    # ---- the deadline position "already expired when the solve starts": time_limit = 0
+    if only is None or only == {"tl0": True}:
+        w0 = copy.deepcopy(world)
+        w0["params"]["time_limit"] = 0.0
+        w0["clock"] = {"steps": [], "tail": 0.0}
+        S0 = execute(w0)
+        execs += 1
+        bump("stops.deadline.at_start")
+        if TR >= 1 and R.trials[0].exc is None:
+            viol += _compare_prefix(R, S0, 0, racc, rt, {"tl0": True}, dict(ctx0, t=0), False, {"TimeLimit"} if cap > 0 else {"IterationLimit"})
     # ---- the same limits on the *re-used* solver object (solver.params.iteration_limit = k; solve again)
     fresh = {}
     for k in [k for k in ks if 0 < k < TR and k <= cap][:1] + [k for k in ks if TR // 2 <= k < TR and k <= cap][:1]:
